@@ -4,6 +4,8 @@ CONSTANTS
   StemLen = 2
   ExtServer = 3
   ExtClient = 2
+  KeyLens <- KeyLensQuick
+  ListLens <- ListLensQuick
 CONSTRAINT Emit
-INVARIANTS InvBatch InvPartition
+INVARIANTS InvBatch InvPartition InvLongCovers
 CHECK_DEADLOCK FALSE
